@@ -29,6 +29,10 @@ def run(ctx):
                        "upstream testc programs are an additional fixed replay tier, not generated input"]
     configs = [None, {"debug": True}]
     callcheck.run_engine(ctx, "c", configs, 32 if quick else 800, ["c++"])
+    # focused families (a few dozen draws alone leave them thin): small libraries that always carry an overload set and
+    # a default-argument function; small libraries that always carry a class
+    callcheck.run_engine(ctx, "c", [None], 16 if quick else 300, ["c++"], with_overloads=True, nfunc=(1, 2), with_class=False)
+    callcheck.run_engine(ctx, "c", [None], 12 if quick else 200, ["c++"], with_class=True, with_overloads=False, nfunc=(0, 2))
     names = upstream.target_lists()["c"]
     for name, res in zip(names, core.pool_map(_up_job, names)):
         ctx.case(label="upstream-testc")
